@@ -9,7 +9,7 @@ _reg('isa', ['I1', 'I4', 'I6'])
 _reg('jit', ['J1', 'X0', 'X1'])
 _reg('recip', ['R1', 'R2', 'R3'])
 _reg('api', ['H1', 'D2', 'I7'])
-_reg('life', ['H6', 'H7', 'H3', 'K1', 'H8'])
+_reg('life', ['H6', 'H7', 'H3', 'K1', 'H8', 'H9'])
 _reg('sshash', ['S4', 'D1', 'S1', 'S5', 'S2', 'S3'])
 _reg('vmloop', ['I8'])
 _reg('foot', ['F1'])
@@ -28,10 +28,10 @@ PROPS = {
  'C10': dict(level='other', lemmas=['G1', 'G2', 'G4', 'B1', 'B2', 'B3', 'B4', 'H3', 'G3', 'G5', 'G6', 'B6'],
    files=['src/dataset.cpp', 'src/argon2_core.c', 'src/argon2_ref.c', 'src/argon2_ssse3.c', 'src/argon2_avx2.c', 'src/blake2/blamka-round-ref.h', 'src/blake2/blamka-round-ssse3.h', 'src/blake2/blamka-round-avx2.h', 'src/blake2/blake2b.c'],
    explanation='TODO', trusted=['RFC 9106 transcription in spec/argon2_ref.py'], outside=[]),
- 'C12': dict(level='other', lemmas=['A1', 'A2', 'A3', 'A5', 'A4'],
+ 'C12': dict(level='other', lemmas=['A1', 'A2', 'A3', 'A5', 'A4', 'J3'],
    files=['src/aes_hash.cpp', 'src/aes_hash.hpp', 'src/soft_aes.cpp', 'src/soft_aes.h', 'src/intrin_portable.h', 'src/virtual_machine.cpp', 'src/asm/program_loop_store_hard_aes.inc', 'src/asm/program_loop_store_soft_aes.inc', 'doc/specs.md'],
    explanation='TODO', trusted=['FIPS-197 transcription in spec/aes_ref.py (self-tested on the FIPS-197 appendix B vector)', 'Intel SDM: AESENC/AESDEC == FIPS-197 round / inverse round'], outside=[]),
- 'C05': dict(level='other', lemmas=['I1', 'I7', 'I8'],
+ 'C05': dict(level='other', lemmas=['I1', 'I7', 'I8', 'J1'],
    files=['src/bytecode_machine.cpp', 'src/bytecode_machine.hpp', 'src/instruction.hpp', 'src/virtual_machine.cpp', 'src/vm_interpreted.cpp', 'src/intrin_portable.h', 'src/instructions_portable.cpp', 'src/common.hpp', 'src/configuration.h', 'doc/specs.md'],
    explanation='TODO', trusted=['doc/specs.md chapter 4-5 transcription in spec/vm_ref.py'], outside=[]),
  'C04': dict(level='translation_validation', lemmas=['X0', 'X1', 'J1', 'J3', 'J4', 'A4', 'I1'],
@@ -50,7 +50,7 @@ PROPS = {
  'C18': dict(level='other', lemmas=['R1', 'R2', 'R3'],
    files=['src/reciprocal.c', 'src/reciprocal.h', 'src/asm/randomx_reciprocal.inc', 'src/common.hpp', 'src/bytecode_machine.cpp', 'src/jit_compiler_x86.cpp', 'src/dataset.cpp', 'src/superscalar.cpp'],
    explanation='TODO', trusted=['Euclidean characterisation of unsigned division'], outside=[]),
- 'C08': dict(level='translation_validation', lemmas=['D2', 'D1', 'S4', 'J5', 'F1'],
+ 'C08': dict(level='translation_validation', lemmas=['D2', 'D1', 'S4', 'J5', 'F1', 'H9', 'H3'],
    files=['src/randomx.cpp', 'src/dataset.cpp', 'src/dataset.hpp', 'src/superscalar.cpp', 'src/jit_compiler_x86.cpp', 'src/jit_compiler_x86_static.S', 'src/vm_interpreted_light.cpp'],
    explanation='TODO', trusted=[], outside=[]),
  'C13': dict(level='other', lemmas=['H1'],
